@@ -1,15 +1,24 @@
 ---------------------------- MODULE Gen_TemplateLang ----------------------------
 (* Template enumeration: every reachable state is one test case (cfg, src) carrying the
-   specification's result res.  "main" grows token by token up to the family's bound.  A
-   template whose ParseError is final (raised at a tag: every extension raises the same error)
-   is not extended by arbitrary tokens, but it is still closed by up to two {% end %} tags
-   beyond the bound - so that a compiler which wrongly accepts the offending tag is carried to
-   a complete template and observed, instead of agreeing by accident on "missing end". *)
+   specification's result res.  "main" grows token by token up to the family's bound.
+   Beyond the bound only {% end %} is appended, in two situations:
+   * a template whose ParseError is final (raised at a tag: every extension raises the same
+     error) is not extended by arbitrary tokens, but it is closed by up to two {% end %} - so
+     that a compiler which wrongly accepts the offending tag is carried to a complete template
+     and observed, instead of agreeing by accident on "missing end";
+   * a template that reaches the bound with blocks still open (ParseError "missing end") is
+     closed by up to three {% end %} (block-structured families only), which turns the many open
+     prefixes at the bound into complete templates that are evaluated. *)
 EXTENDS TemplateLang
 VARIABLE dead        \* number of tokens appended since the first final ParseError
 Hard(r) == r.kind = "parse" /\ ~r.soft
+Bound == Family(cfg.fam).max + Grow - 1
 GenInit == InitState /\ dead = 0
 GenNext == \/ dead = 0 /\ Next /\ dead' = (IF Hard(res') THEN 1 ELSE 0)
            \/ dead \in 1..2 /\ AddFree("end") /\ dead' = dead + 1
+           \/ /\ dead = 0 /\ Len(toks) >= Bound /\ Len(toks) < Bound + 3
+              /\ cfg.fam \in {"control", "while", "try", "tryloop", "apply", "loader", "escfiles"}
+              /\ res.kind = "parse" /\ res.soft
+              /\ AddFree("end") /\ dead' = (IF Hard(res') THEN 3 ELSE 0)
 GenSpec == GenInit /\ [][GenNext]_<<vars, step, dead>>
 =============================================================================
